@@ -78,12 +78,9 @@ theorem finishLoad_never_panics (c : Cfg) (d : Val.KVs) (s : String) : finishLoa
       · intro h; cases h
       · intro h; exact absurd (ofC11_panic h) (C11.normalize_never_panics _ _ _ _)
 
-/-- one document: `processRawYaml` -/
-theorem processDoc_only_panic_sites (c : Cfg) (dict : Val) (cfg : Val.KVs) (s : String)
-    (h : processDoc c dict cfg = .panic s) : s = "transform.transformKeyValue" := by
-  unfold processDoc at h
-  rcases bind_panic h with h1 | ⟨cfg', _, h⟩
-  · exact absurd h1 (interpStage_never_panics _ _ _)
+theorem mergeStages_only_panic_sites (c : Cfg) (dict : Val) (cfg : Val.KVs) (s : String)
+    (h : mergeStages c dict cfg = .panic s) : s = "transform.transformKeyValue" := by
+  unfold mergeStages at h
   rcases bind_panic h with h1 | ⟨d1, _, h⟩
   · exact absurd (ofMerge_panic h1) (C04.merge_never_panics _ _ _)
   rcases bind_panic h with h1 | ⟨d2, _, h⟩
@@ -95,6 +92,48 @@ theorem processDoc_only_panic_sites (c : Cfg) (dict : Val) (cfg : Val.KVs) (s : 
   rcases bind_panic h with h1 | ⟨d5, _, h⟩
   · exact absurd h1 (omitEmpty_never_panics _ _ _)
   · exact absurd (ofMerge_panic h) (C04.enforceTop_never_panics _ _)
+
+/-- one document: `processRawYaml` -/
+theorem processDoc_only_panic_sites (c : Cfg) (dict : Val) (cfg : Val.KVs) (s : String)
+    (h : processDoc c dict cfg = .panic s) : s = "transform.transformKeyValue" := by
+  unfold processDoc at h
+  rcases bind_panic h with h1 | ⟨cfg', _, h⟩
+  · exact absurd h1 (interpStage_never_panics _ _ _)
+  · exact mergeStages_only_panic_sites _ _ _ _ h
+
+/-- one document read from YAML text, `!reset` / `!override` included -/
+theorem processNode_only_panic_sites (c : Cfg) (dict : Val) (n : Reset.YNode) (s : String)
+    (h : processNode c dict n = .panic s) : s = "transform.transformKeyValue" := by
+  unfold processNode at h
+  split at h
+  · rcases bind_panic h with h1 | ⟨cfg', _, h⟩
+    · exact absurd h1 (interpStage_never_panics _ _ _)
+    · exact mergeStages_only_panic_sites _ _ _ _ h
+  · cases h
+
+theorem processNodes_only_panic_sites (c : Cfg) : ∀ (ns : List Reset.YNode) (dict : Val) (s : String),
+    processNodes c dict ns = .panic s → s = "transform.transformKeyValue"
+  | [], _, _, h => by cases h
+  | n :: r, dict, s, h => by
+    unfold processNodes at h
+    split at h
+    · exact processNodes_only_panic_sites c r _ s h
+    · cases h
+    · rename_i s' hd
+      cases h
+      exact processNode_only_panic_sites c dict n s hd
+
+theorem processFiles_only_panic_sites (c : Cfg) : ∀ (fs : List (List Reset.YNode)) (dict : Val) (s : String),
+    processFiles c dict fs = .panic s → s = "transform.transformKeyValue"
+  | [], _, _, h => by cases h
+  | f :: r, dict, s, h => by
+    unfold processFiles at h
+    split at h
+    · exact processFiles_only_panic_sites c r _ s h
+    · cases h
+    · rename_i s' hd
+      cases h
+      exact processNodes_only_panic_sites c f dict s hd
 
 theorem processDocs_only_panic_sites (c : Cfg) : ∀ (docs : List Val.KVs) (dict : Val) (s : String),
     processDocs c dict docs = .panic s → s = "transform.transformKeyValue"
@@ -152,6 +191,28 @@ theorem load_skipValidation_only_panic_site (c : Cfg) (docs : List Val.KVs) (s :
   rcases load_panic_origin c docs s h with h1 | ⟨h2, _⟩
   · exact h1
   · rw [hv] at h2; cases h2
+
+/-- the same for files given as YAML text (several `---` documents per file, `!reset` / `!override` tags) -/
+theorem loadY_panic_origin (c : Cfg) (files : List (List Reset.YNode)) (s : String) (h : loadY c files = .panic s) :
+    s = "transform.transformKeyValue" ∨
+    (c.opts.skipValidation = false ∧
+      s ∈ ["validation.init.checkFileObject", "validation.checkPath", "validation.checkDeviceRequest"]) := by
+  unfold loadY at h
+  split at h
+  · cases h
+  rcases bind_panic h with h1 | ⟨d, _, h⟩
+  · unfold loadYamlModelY at h1
+    rcases bind_panic h1 with h2 | ⟨d0, _, h2⟩
+    · exact .inl (processFiles_only_panic_sites c files _ s h2)
+    · exact .inr (finishModel_only_panic_sites c d0 s h2)
+  · exact absurd h (finishLoad_never_panics _ _ _)
+
+theorem loadY_only_panic_sites (c : Cfg) (files : List (List Reset.YNode)) (s : String) (h : loadY c files = .panic s) :
+    s ∈ reviewedSites := by
+  rcases loadY_panic_origin c files s h with h1 | ⟨_, h2⟩
+  · rw [h1]; simp [reviewedSites]
+  · simp only [reviewedSites, List.mem_cons, List.mem_nil_iff, or_false] at h2 ⊢
+    exact .inr h2
 
 /-- the empty list of files and the empty model are *errors* (never a crash, never an empty project) -/
 theorem load_no_files (c : Cfg) : load c [] = .err "nofiles" := rfl
